@@ -226,6 +226,17 @@ func registerRT(e *Engine) {
 		}
 		return VBool{tFalse}
 	})
+	rt("ProtoEqual", func(p *Path, a []Value) Value {
+		x, y := a[0].(VIface), a[1].(VIface)
+		if x.Ty == nil || y.Ty == nil || !types.Identical(x.Ty, y.Ty) {
+			return VBool{BoolC(x.Ty == nil && y.Ty == nil)}
+		}
+		px, py := x.Val.(VPtr), y.Val.(VPtr)
+		if px.Nil || py.Nil {
+			return VBool{BoolC(px.Nil && py.Nil)}
+		}
+		return VBool{p.deepEq(px.load(), py.load())}
+	})
 	rt("ErrCode", func(p *Path, a []Value) Value {
 		x := a[0].(VIface)
 		if x.Ty == nil {
